@@ -28,13 +28,13 @@ def afterReset (f : TeardownFacts) (p : CrashPoint) : Ledger :=
     -- the half-built spa is disconnected under the feet of `_connect`, which then fails on the dropped protocol
     { endpointOpen := (match p.endpoint with
                        | .no => false
-                       | .pending => true                               -- created after the disconnect: nobody is left to close it
+                       | .pending => !f.connectReleasesEndpointIfDisconnected   -- created after the disconnect: `_connect` itself must release it
                        | .yes => !(f.resetDisconnectsSpa && f.disconnectClosesTransport)),
       -- tasks already spawned are cancelled by disconnect(); tasks spawned AFTER the reset die at their first step when the
       -- protocol had been dropped under them, but when the reset lands inside the endpoint creation the resumed `_connect`
       -- installs a fresh protocol and spawns the seven SPA tasks on it for a spa nobody owns any more: they live on
       tasksAlive := (p.tasksSpawned && !(f.resetDisconnectsSpa && f.disconnectCancelsSpaTasks)) ||
-                    (!p.tasksSpawned && p.endpoint == .pending),
+                    (!p.tasksSpawned && p.endpoint == .pending && !f.connectReleasesEndpointIfDisconnected),
       observersLeft := !(f.resetDisconnectsSpa && f.disconnectUnwatchesAll),
       pumpAlive := f.pumpSurvivesExceptions }
   else if p.proc = "pump-connected" then
